@@ -41,6 +41,27 @@ CLAIMED = {
     "C12": dict(technique="explicit-state exploration of every drop order of the objects of each scenario on the real code (seqx); oracles: mmap/munmap/close interposer, simulated kernel descriptor table, tracking allocator",
                 text="~80 scenarios (operations not started / queued / in flight / abandoned / finished-unpolled / mid-stream, queue clone, regular and direct AsyncFd, pool, owned and unassigned ReadBuf; kernel cancelling everything, failing to cancel, cancelling nothing) x every permutation of dropping those objects that safe Rust admits; checked: no panic/crash, no use of freed memory, the three ring mappings unmapped exactly once with their original lengths before the ring fd is closed, queued clean-up requests submitted, every descriptor closed once, no allocation left.",
                 ref="6/C12"),
+    "C13": dict(technique="bounded exhaustive enumeration: submissions decoded by a simulated kernel compared with an io_uring ABI table and regular-vs-direct differential, plus differential execution against the real kernel with libc as oracle (casex)",
+                text="Part A (simulated kernel): 37 operation shapes each issued on a regular and on a direct descriptor; every field of the two submissions must agree except the descriptor field/flag, and must equal an independent ABI table; builder settings made before the first poll (offsets incl. 2^40 and 2^64-2, every send/recv flag, open options x mode x kind, advice, allocate mode, truncate length, shutdown mode ...) must be reflected. Part B (real kernel): 16 scenarios x {regular, direct}: the a10 call on a real ring and the libc call on an identical fixture are compared on result/errno, bytes at offsets, file position, stat fields, addresses and option values.",
+                ref="6/C13", category="exploration", engine="casex",
+                note="Trusted base: the Linux kernel of this sandbox (6.18) and libc as the oracle for part B; the ABI table in harness/src/c13.rs for part A. Exhaustive over the stated argument alphabets only."),
+    "C14": dict(technique="bounded exhaustive enumeration of inputs against an independent reference (casex)",
+                text="Every provided Buf/BufMut/BufSlice/BufMutSlice implementation and wrapper (Vec, Box<[u8]>, String, Box<str>, static slices, both Cows, Arc<[u8]>, Arc<str>, StaticBuf, arrays and heterogeneous tuples of arity 1..8, LimitedBuf around each) over capacities {0,1,2,3,8,64}, fill levels, 12 limits incl. 2^32-1, 2^32, 2^32+1, 2^32+5 and usize::MAX, limits on and inside every member boundary, and every n for set_init: exposed pointer/length pairs inside the buffer's own memory, lengths/spare capacities agree with them, set_init(n) appends exactly the n bytes written front to back, limit never exceeded and decreased by n.",
+                ref="6/C14", category="exploration", engine="casex",
+                note="Pure functions; exhaustive over the stated alphabets. The crate-private SkipBuf/ReadNBuf wrappers are covered through C10's submissions."),
+    "C15": dict(technique="explicit-state exploration of edit sequences on the real ReadBuf against a Vec<u8> reference (seqx, merged by contents)",
+                text="Pool of 4 slots, buffer sizes 1,2,4 (thorough 8), every initial fill, slots 0/1/3, all edit sequences of length 3 (thorough 4) over truncate, clear, remove with every range form and bounds {0..cap+1, usize::MAX-1, usize::MAX}, set_len, extend_from_slice, spare_capacity_mut+set_len, a second kernel read, as_mut_slice writes, then release: same contents/length/panics as a capacity-guarded Vec, no byte outside the slot touched (canary slab), the released ring entry is the original slot.",
+                ref="6/C15"),
+    "C16": dict(technique="bounded exhaustive enumeration of addresses through the conversion functions plus real-kernel bind/getsockname (casex)",
+                text="IPv4 (quick: 8 first octets x 7^3 x 4 ports; thorough: all 2^32 addresses x 4 ports), 64 structured IPv6 addresses x ports x flowinfo x scope id, either-family, Unix path names of every length 1..107, abstract names of every length 0..107 incl. embedded NULs, unnamed: address -> storage -> (pointer,length) -> bytes -> init with the length the kernel reports gives the same address and the storage bytes equal the sockaddr ABI; the kernel-reported lengths are established on real sockets; Unix addresses are also bound with exactly a10's (pointer,length) and read back.",
+                ref="6/C16", category="exploration", engine="casex",
+                note="Pure conversion functions plus the real kernel for Unix/IP name lengths."),
+    "C17": dict(technique="bounded exhaustive enumeration of inotify record sequences x read batchings served by a simulated kernel to a real Watcher (casex over simk)",
+                text="Every sequence of up to 3 (thorough 4) records over 12 representative inotify records, every cutting into successive reads that fit the buffer, ending with an empty read, a read error or nothing, EINTR on a read, plus every name length 0..255 and every mask bit x IN_ISDIR x watch-descriptor class: the events yielded must be exactly the user-visible records in order with mask, unpadded name and path_for; bytes after the written data are a decoy record that must never be decoded; references handed out are tracked (address range) against later reads into, and frees of, the buffer.",
+                ref="6/C17", engine="casex"),
+    "C18": dict(technique="exhaustive fault enumeration: configuration product x kernel answers on the real Config::build against the simulated kernel, with mmap/madvise failure injection by link-time interposition (casex)",
+                text="Queue sizes {0,1,2,3,32,max} x completion size {unset,1,2*sq,64} x kernel thread (affinity, idle) x single issuer x defer taskrun x disabled x attach x direct descriptors, crossed with kernel answers (ok, other granted sizes, EINVAL/ENOMEM/EPERM/ENOSYS, each required feature bit missing, unmappable descriptor, 1st/2nd/3rd mmap failing, 1st-3rd madvise failing, file-table registration failing) and counter start values: on error no descriptor, mapping or allocation is left; on success the parameter block encodes the configuration, operations round-trip through the granted slots, enable is required iff disabled, and dropping the Ring restores the baseline.",
+                ref="6/C18", category="fault_enumeration", engine="casex"),
 }
 NOT_APPLICABLE = {}
 ALL = [f"C{i:02d}" for i in range(1, 19)]
@@ -62,6 +83,7 @@ m = {
     "engines": [
         {"name": "schx", "path": "harness/src/schx.rs", "serves_properties": [p for p in sorted(CLAIMED) if "schx" in CLAIMED[p].get("engine","seqx")], "kind_free_text": "stateless preemption-bounded DFS over schedules of real OS threads (baton passing at a10's lock/try_lock/shared-word hooks and simk syscall boundaries), kernel actors scheduled like threads, deadlock detection"},
         {"name": "seqx", "path": "harness/src/seqx.rs", "serves_properties": [p for p in sorted(CLAIMED) if "seqx" in CLAIMED[p].get("engine","seqx")], "kind_free_text": "explicit-state DFS over action histories of the real a10 code against the simulated kernel simk; nodes re-created by replay; state-key merging beyond d_all; deviation bounded"},
+        {"name": "casex", "path": "harness/src/casex.rs", "serves_properties": [p for p in sorted(CLAIMED) if CLAIMED[p].get("engine","seqx") == "casex"], "kind_free_text": "flat bounded-exhaustive enumeration of cases (inputs, configurations x kernel answers, record sequences x batchings), each executed on the real code; shares the driver, confirmation-by-replay and evidence machinery with seqx"},
         {"name": "simk", "path": "harness/src/simk.rs", "serves_properties": sorted(CLAIMED), "kind_free_text": "in-process simulated io_uring kernel (memfd rings, explorer-controlled completions)"},
     ],
     "checks": [],
